@@ -210,6 +210,12 @@ def validate_groups(module, groups, tag, rep, par=6, shard_bytes=8_000_000, env=
     for p, r in zip(paths, results):
         lines = None
         rep.cov["traces_validated_against_impl"] += 1
+        for (ln, text) in r.get("notes", []):
+            # behaviour described by the specification but demanded by no listed property: reported, never a violation
+            obs = rep.cov.setdefault("observations_outside_the_properties", [])
+            if len(obs) < 20:
+                obs.append(text[:400])
+            core.log("note (outside the listed properties): " + text[:300])
         for (ln, text) in r["mismatches"]:
             if lines is None:
                 lines = open(p).read().splitlines()
